@@ -29,7 +29,11 @@ def main():
     except Exception:
         traceback.print_exc()
         rc = EXIT_MACHINERY
-    sys.exit(rc)
+    from .common import cleanup
+    cleanup()
+    sys.stdout.flush()
+    sys.stderr.flush()
+    os._exit(rc)        # stray daemon threads of the thread harness must not keep the check alive
 
 
 main()
